@@ -197,6 +197,57 @@ def model_to_dict(m: z3.ModelRef) -> dict:
     return out
 
 
+def _sum_terms(t, acc, seen):
+    """collect SumOver_* applications (outermost first)"""
+    if t.get_id() in seen:
+        return
+    seen.add(t.get_id())
+    if z3.is_app(t):
+        if t.decl().name().startswith("SumOver_"):
+            acc.append(t)
+        for ch in t.children():
+            _sum_terms(ch, acc, seen)
+    elif z3.is_quantifier(t):
+        _sum_terms(t.body(), acc, seen)
+
+
+_SUM_K = itertools.count()
+
+
+def sum_congruence_lemmas(s: z3.Solver, goal, depth=0):
+    """Sound lemmas  SumOver(n1, λ f) == SumOver(n2, λ g)  whenever  n1 == n2  and  f(k) == g(k) for a fresh
+    k in [0, n1)  are provable under the current solver state (extensionality of the summation
+    functional — the solver does not find this on its own).  Added to ``s`` permanently."""
+    acc: list = []
+    _sum_terms(goal, acc, set())
+    for a in s.assertions():
+        if len(acc) > 40:
+            break
+    if len(acc) < 2 or depth > 2:
+        return 0
+    added = 0
+    tops = [t for t in acc if z3.is_quantifier(t.arg(1)) and t.arg(1).is_lambda()]
+    for i in range(len(tops)):
+        for j in range(i + 1, len(tops)):
+            a, b = tops[i], tops[j]
+            if a.decl() != b.decl() or a.eq(b):
+                continue
+            k = z3.Int(f"k!ext{next(_SUM_K)}")
+            fa = z3.substitute_vars(a.arg(1).body(), k)
+            fb = z3.substitute_vars(b.arg(1).body(), k)
+            s.push()
+            s.add(k >= 0, k < a.arg(0))
+            side = z3.And(a.arg(0) == b.arg(0), fa == fb)
+            sum_congruence_lemmas(s, side, depth + 1)
+            s.add(z3.Not(side))
+            r = s.check()
+            s.pop()
+            if r == z3.unsat:
+                s.add(a == b)
+                added += 1
+    return added
+
+
 def prove_under(pc, goal, solver=None, ctxobj=None, timeout_ms: int = 10000) -> dict:
     goal = z3.simplify(goal)
     if z3.is_true(goal):
@@ -210,6 +261,24 @@ def prove_under(pc, goal, solver=None, ctxobj=None, timeout_ms: int = 10000) -> 
         own = True
     t = time.time()
     s.push()
+    try:
+        if "SumOver_" in goal.sexpr()[:200000]:
+            g = goal
+            while z3.is_implies(g):  # move hypotheses to the left so that the side lemmas can use them
+                s.add(g.arg(0))
+                g = g.arg(1)
+            if z3.is_or(g):
+                keep = []
+                for d in g.children():
+                    if "SumOver_" in d.sexpr():
+                        keep.append(d)
+                    else:
+                        s.add(z3.Not(d))
+                g = z3.Or(*keep) if keep else z3.BoolVal(False)
+            goal = g
+            sum_congruence_lemmas(s, goal)
+    except z3.Z3Exception:
+        pass
     s.add(z3.Not(goal))
     r = s.check()
     out: dict
